@@ -294,6 +294,7 @@ def configs(tier):
     out += [dict(c, window=w) for c in sub for w in ('hann', 'boxcar')]
     out += [dict(c, noise=2.0 ** -40, level=0.6 * 2.0 ** -40) for c in sub]
     out += [dict(c, noise2=True) for c in sub]          # two noise sources per stream
+    out += [dict(c, sample_rate=3e9, t_start=100.0) for c in sub]        # a realistic sample rate, 100 s into an observation
     return out
 
 
